@@ -72,9 +72,15 @@ def run_check(pid, tier, seed, t0):
             if tier == "quick" and qf is not None and not qf(case.name):
                 continue
             for m in (getattr(reg[key], "modes", None) or modes):
+                if getattr(case, "modes", None) and m not in case.modes:
+                    continue        # the case's domain is empty under this calendar mode
                 tasks.append({"kind": "verify", "key": key, "case": case.name,
                               "mode": m})
                 for rg in reg[key].regions:
+                    # a region is verified in full by the check of the property that owns
+                    # the finding (and everywhere in the thorough tier)
+                    if rg.get("owner") not in (None, pid) and tier != "thorough":
+                        continue
                     if re.fullmatch(rg.get("cases", ".*"), case.name):
                         tasks.append({"kind": "verify", "key": key, "case": case.name,
                                       "mode": m, "region": rg["name"]})
@@ -220,6 +226,9 @@ def run_check(pid, tier, seed, t0):
         fname = re.sub(r"[^A-Za-z0-9_.\[\]-]", "_", "%s__%s" % (x["name"], t["mode"]))[:150]
         path = os.path.join(rdir, fname + ".json")
         reproduced, rout = None, None
+        kf0 = match_finding(findings, pid, t, x, rep)
+        if kf0 is not None and id(kf0) in known_hit:
+            continue        # further obligations of a finding already reported in this run
         if t["kind"] == "verify" and rep["contract"] is not None:
             json.dump(rep, open(path, "w"), indent=1, default=str)
             reproduced, rout = do_replay(path)
@@ -394,7 +403,8 @@ def match_finding(findings, pid, t, x, rep):
     for f in findings:
         if f.get("kind", "obligation") != "obligation":
             continue
-        if f.get("function") and f["function"] != t.get("key"):
+        fns = f.get("functions") or ([f["function"]] if f.get("function") else [])
+        if fns and t.get("key") not in fns:
             continue
         if not re.search(f["obligation_regex"], x["name"]):
             continue
